@@ -236,7 +236,7 @@ def _wclass(w0, w1, mem, default_mem):
     """Class of a difference between two write sequences; a write is silent when it stores what the bytes already hold."""
     if len(w1) < len(w0):
         cur = dict(mem)
-        loud = []
+        silent = []
         for a, s, v in w0:
             old = 0
             for i in range(s // 8):
@@ -244,12 +244,20 @@ def _wclass(w0, w1, mem, default_mem):
                 b = cur.get(x)
                 old |= (default_mem(x) if b is None else b) << (8 * i)
                 cur[x] = (v >> (8 * i)) & 0xFF
-            if old != v:
-                loud.append((a, s, v))
-        # every loud write must survive, in order, and nothing else may appear
-        it = iter(w0)
-        sub = all(any(x == y for y in it) for x in w1)
-        if sub and [x for x in w1 if x in loud] == loud:
+            silent.append(old == v)
+        # is w1 = w0 minus some silent writes ?
+        reach = {(0, 0)}
+        for i in range(len(w0)):
+            nxt = set()
+            for (x, j) in reach:
+                if x != i:
+                    continue
+                if j < len(w1) and w0[i] == w1[j]:
+                    nxt.add((i + 1, j + 1))
+                if silent[i]:
+                    nxt.add((i + 1, j))
+            reach = nxt
+        if (len(w0), len(w1)) in reach:
             return "silent-store-dropped"
         return "write-lost"
     if len(w1) > len(w0):
@@ -270,12 +278,13 @@ def check_graph(n, shape_idx, body_idx, cond_idx, alphabet, conds, pipelines=PIP
             "pipelines": list(pipelines)}
     desc0 = irgen.describe(shape, body_idx, cond_idx, alphabet, conds)
     kind = "loop" if not irgen.shape_is_loop_free(shape) else "dag"
-    info = {"states": 0, "skipped_states": 0, "compared": 0, "runs_with_writes": 0, "runs_with_calls": 0, "changed": 0, "raised": 0}
+    info = {"states": 0, "skipped_states": 0, "compared": 0, "runs_with_writes": 0, "runs_with_calls": 0, "changed": 0, "raised": 0, "pipeline_runs": 0}
     vs = []
     g0 = build_graph(n, shape_idx, body_idx, cond_idx, alphabet, conds)
     it0 = irinterp.Interp(g0.loc_db)
     before = graph_text(g0.ircfg)
     for pipeline in pipelines:
+        info["pipeline_runs"] += 1
         desc = "[%s] %s" % (pipeline, desc0)
         g = build_graph(n, shape_idx, body_idx, cond_idx, alphabet, conds)
         lifter = out_regs_lifter(type(g.lifter), g.loc_db) if pipeline == "ssa-outregs" else g.lifter
@@ -296,21 +305,25 @@ def check_graph(n, shape_idx, body_idx, cond_idx, alphabet, conds, pipelines=PIP
 
 # ------------------------------------------------------------------ x86 functions (thorough)
 
-def check_x86(idx, pipelines=PIPELINES):
+X86_PIPELINES = ("common", "ssa")
+
+
+def check_x86(idx, pipelines=X86_PIPELINES):
+    """Lifted functions are taken as the lifter gives them (ret writes ESP in the leaf, EAX is written wherever the
+    code computes it): the pipelines are driven with the stock lifter, as example/disasm/full.py does."""
     from mc import x86funcs
     name = x86funcs.FUNCS[idx][0]
-    case = {"kind": "x86", "index": idx, "name": name}
-    info = {"states": 0, "skipped_states": 0, "compared": 0, "runs_with_writes": 0, "runs_with_calls": 0, "changed": 0, "raised": 0}
+    case = {"kind": "x86", "index": idx, "name": name, "pipelines": list(pipelines)}
+    info = {"states": 0, "skipped_states": 0, "compared": 0, "runs_with_writes": 0, "runs_with_calls": 0, "changed": 0, "raised": 0, "pipeline_runs": 0}
     vs = []
     f0 = x86funcs.lift(idx)
-    add_epilogue(f0.ircfg, f0.loc_db, [f0.regs.EAX, f0.regs.ESP])
     kind = "x86/" + ("loop" if f0.has_loop else "dag")
     it0 = irinterp.Interp(f0.loc_db)
     before = graph_text(f0.ircfg)
     for pipeline in pipelines:
-        desc = "[%s] x86_32 function %s { %s }" % (pipeline, name, x86funcs.FUNCS[idx][1].strip().replace("\n", "; "))
-        f = x86funcs.lift(idx, lifter_factory=(out_regs_lifter if pipeline == "ssa-outregs" else None))
-        add_epilogue(f.ircfg, f.loc_db, [f.regs.EAX, f.regs.ESP])
+        info["pipeline_runs"] += 1
+        desc = "[%s] x86_32 function %s {%s }" % (pipeline, name, " ;".join(l.strip() for l in x86funcs.FUNCS[idx][1].splitlines()))
+        f = x86funcs.lift(idx)
         try:
             out, var2orig = run_pipeline(pipeline, f.lifter, f.ircfg, f.head)
         except Exception as e:
@@ -320,6 +333,7 @@ def check_x86(idx, pipelines=PIPELINES):
         if graph_text(out) != before:
             info["changed"] += 1
         it1 = irinterp.Interp(f.loc_db)
+        extra = x86funcs.all_ids(out)
         vs += differential(desc, case, pipeline, kind, it0, it1, f0.ircfg, f0.head, out, f.head, var2orig,
                            x86funcs.states(f0), [f0.regs.EAX, f0.regs.ESP], x86funcs.FUEL, info)
     return vs, info
@@ -365,25 +379,41 @@ def _shard(args):
     return cnt, nt, vs, sample, sigs, tot
 
 
+ALL3 = ("common", "ssa", "ssa-outregs")
+TWO = ("common", "ssa")
+ALPHA_REG = ["a=b", "a=a+1", "swap"]
+ALPHA_MIX = ["a=b", "a=a+1", "swap", "r=a", "@[sp+4]=a", "a=@[sp+4]"]
+ALPHA_MEM = ["@[sp+4]=a", "a=@[sp+4]", "@[a]=b", "r=call(a)", "sp=sp-4"]
 PLAN_Q = [
-    (1, 2, ALPHA_FULL, ["a"]),
-    (2, 1, ALPHA_FULL, ["a"]),
-    (3, 1, ["a=b", "a=a+1", "swap", "r=a"], ["a"]),
-    (3, 1, ["r=a", "@[sp+4]=a", "a=@[sp+4]", "@[a]=b"], ["a"]),
+    (1, 2, ALPHA_FULL, ["a"], TWO),
+    (2, 1, ALPHA_FULL, ["a"], ALL3),
+    (3, 1, ["a=a+1", "swap"], ["a"], ("ssa",)),
 ]
 PLAN_T = [
-    (1, 3, ALPHA_FULL, ["a"]),
-    (2, 2, ALPHA_FULL, ["a"]),
-    (2, 1, ALPHA_FULL, ["a", "a==b"]),
-    (3, 1, ALPHA_FULL, ["a"]),
-    (3, 1, ["a=b", "a=a+1", "swap", "r=a", "@[sp+4]=a", "a=@[sp+4]"], ["a", "a==b"]),
-    (4, 1, ["a=a+1", "swap", "r=a"], ["a"]),
-    (4, 1, ["r=a", "@[sp+4]=a", "a=@[sp+4]"], ["a"]),
+    (1, 3, ALPHA_FULL, ["a"], TWO),
+    (2, 2, ALPHA_MIX, ["a"], TWO),
+    (2, 1, ALPHA_FULL, ["a", "a==b", "a<u2"], ALL3),
+    (3, 1, ALPHA_MIX, ["a"], TWO),
+    (3, 1, ALPHA_MEM, ["a"], ("ssa",)),
+    (4, 1, ["swap"], ["a"], ("ssa",)),
+    (4, 1, ["a=a+1"], ["a"], ("ssa",)),
 ]
+
+
+def _preimport():
+    """Import miasm in the parent so that the forked workers share the compiled modules."""
+    import miasm.analysis.simplifier
+    import miasm.analysis.data_flow
+    import miasm.analysis.ssa
+    import miasm.analysis.outofssa
+    import miasm.ir.analysis
+    import miasm.core.locationdb
+    irgen.build(irgen.shapes(1)[0], ((),), (0,), [], ["a"])
 
 
 def run(ctx):
     plan = PLAN_Q if ctx.quick else PLAN_T
+    _preimport()
     shards = []
     for n, maxlen, alphabet, conds, pipelines in plan:
         ns = len(irgen.shapes(n))
@@ -408,7 +438,7 @@ def run(ctx):
     return {
         "evaluations": sum(r[0] for r in res),
         "distinct_nontrivial": sum(r[1] for r in res),
-        "pipeline_runs": 2 * sum(r[0] for r in res),
+        "pipeline_runs": tot.get("pipeline_runs", 0),
         "pipeline_runs_that_changed_the_graph": tot.get("changed", 0),
         "pipeline_runs_that_raised": tot.get("raised", 0),
         "state_runs": tot.get("states", 0),
@@ -420,8 +450,8 @@ def run(ctx):
         "violating_graphs_by_signature": sigcount,
         "samples": [r[3] for r in res if r[3]][:6],
         "exhaustive": True,
-        "bounds": {"plan(blocks,max_assignments,alphabet,conditions)": [[n, l, a, c] for n, l, a, c in plan],
-                   "fuel_blocks": FUEL, "pipelines": list(PIPELINES),
+        "bounds": {"plan(blocks,max_assignments,alphabet,conditions,pipelines)": [[n, l, a, c, list(p)] for n, l, a, c, p in plan],
+                   "fuel_blocks": FUEL, "x86_pipelines": list(X86_PIPELINES),
                    "state_lattice": "a,b in {0,1,2,0xFFFFFFFF} (when read), sp in {0x1000,0xFFFFFFFC} and bytes sp+4..sp+11 in {address pattern, zero} (when memory is used)"},
     }
 
